@@ -132,15 +132,13 @@ theorem face3_geometry_equivariant (sq : K → K) (M : Motion K) (hM : M.R.IsRot
   ⟨faceArea3_move sq M hM ps h, faceNormal3_move M hM ps h, faceCentre3_move sq M hM ps h hA⟩
 
 /-- one cell of a 3-D grid given by its faces (sign in `cell_faces`, node loop): volume (sum of the signed
-    sub-tetrahedra about the mean of the face centres) invariant, centre moved, and the "negative
-    tetrahedron" error test invariant. Second half of `_compute_geometry_3d`. -/
+    sub-tetrahedra about the mean of the face centres) invariant, centre moved, and the list of signed
+    sub-tetrahedron volumes (what the "negative tetrahedron" test looks at) invariant. Second half of `_compute_geometry_3d`. -/
 theorem cell3_geometry_equivariant (sq : K → K) (M : Motion K) (hM : M.R.IsRot) (c : Cell3 K) (hc : c ≠ [])
     (hf : ∀ f ∈ c, f.2 ≠ [] ∧ faceArea3 sq f.2 ≠ 0) :
     cellVol3 sq (Cell3.move M c) = cellVol3 sq c ∧ cellCen3 sq (Cell3.move M c) = act M (cellCen3 sq c) ∧
-      negTet (cellEdges sq (Cell3.move M c)) = negTet (cellEdges sq c) := by
-  refine ⟨cellVol3_move sq M hM c hc hf, cellCen3_move sq M hM c hc hf, ?_⟩
-  rw [cellEdges_move sq M hM c hf]
-  exact negTet_move M hM _ (cellEdges_ne_nil sq c hc (fun f hm => (hf f hm).1))
+      cellTetVols sq (Cell3.move M c) = cellTetVols sq c :=
+  ⟨cellVol3_move sq M hM c hc hf, cellCen3_move sq M hM c hc hf, cellTetVols_move sq M hM c hc hf⟩
 
 /-- `_compute_geometry_3d`, whole grid: all five fields, and the ValueError test. Hypotheses: faces have
     nodes and non-zero area (the code divides by it), cells have faces. -/
